@@ -165,7 +165,20 @@ class OptCase:
         return res
 
     def _run(self, res, seed):
+        # an optimizer may test gradient values (e.g. "all zero?"): every feasible path is explored, the rule must hold on each
         sess = new_session()
+        ex = core.Explorer(max_paths=64)
+        stop = []
+
+        def one():
+            if not stop:
+                self._run_path(res, seed, sess, ex)
+                if res["failures"] or res["errors"] or res["status"] != "ok":
+                    stop.append(1)
+        ex.run(one)
+        res["paths"] = ex.paths
+
+    def _run_path(self, res, seed, sess, ex):
         fail = None
 
         def bump(backend):
@@ -240,7 +253,7 @@ class OptCase:
                     clause = ".frozen_parameter_unchanged" if not req[i] else (".follows_update_rule" if ev == "step" else ".parameters_unchanged")
                     for k in np.ndindex(*p.shape):
                         a, b = S.of(p.data[k]), S.of(exp_data[i][k])
-                        v = prove_equal(a, b, list(sess.pre) + sess.relevant_axioms([a.n, a.d, b.n, b.d]), timeout_ms=20000)
+                        v = prove_equal(a, b, list(sess.pre) + list(ex.pc) + sess.relevant_axioms(list(ex.pc) + [a.n, a.d, b.n, b.d]), timeout_ms=20000)
                         res["solver_s"] += v.seconds
                         if v.status == "discharged":
                             bump(v.backend)
@@ -265,7 +278,8 @@ class OptCase:
                 bump("syntactic")
         if fail:
             oname, what, info = fail
-            rep = self._native_replay(exp_data, info, seed)
+            self._npre = len(sess.pre)
+            rep = self._native_replay(exp_data, info, seed, list(sess.pre) + list(ex.pc))
             res["key"].update(info)
             if rep.get("reproduced"):
                 res["failures"].append({"obligation": oname, "what": what, "reproduced": True, "replay": rep})
@@ -274,7 +288,7 @@ class OptCase:
             else:
                 res["failures"].append({"obligation": oname, "what": what, "reproduced": False, "replay": rep})
 
-    def _native_replay(self, exp_data, info, seed):
+    def _native_replay(self, exp_data, info, seed, constraints=()):
         from ..symreal.harness import var_names
         rng = random.Random("%s|%s|%d" % (self.kind, self.key, seed))
         point = {"lr": 0.1 + rng.random() * 0.2, "wd": 0.05 + rng.random() * 0.3, "mu": 0.3 + rng.random() * 0.5, "tau": 0.1 + rng.random() * 0.4, "b1": 0.8 + rng.random() * 0.15,
@@ -286,6 +300,20 @@ class OptCase:
             for i, sh in ((0, (2,)), (1, (1, 2)), (2, (2,))):
                 for n in var_names("c%d_%d" % (k, i), sh):
                     point[n] = rng.choice([-1, 1]) * rng.uniform(0.3, 2.0)
+        # a point ON the failing path: variables the path condition talks about (e.g. "this gradient is all zero") take the solver's values
+        if constraints:
+            import z3
+            from ..symreal.discharge import _model_env
+            pinned = set()
+            for c in constraints[self._npre:]:
+                pinned |= set(core.free_vars(c))
+            if pinned:
+                sv = z3.Solver()
+                sv.set("timeout", 5000)
+                sv.add(*constraints)
+                if sv.check() == z3.sat:
+                    m = _model_env(sv.model())
+                    point.update({k_: v_ for k_, v_ in m.items() if k_ in point and k_ in pinned})
         upto = info["event_index"]
         rep = {"inputs": point, "history": list(self.events), "failing_event": upto, "options": self.opts}
         try:
